@@ -406,6 +406,9 @@ def dataw (s : List UInt8) : Option (List Nat) := utf8toUtf16 (mem s) s.length
 /-- what a C caller sees through the returned pointer (`wcslen`, `wlength()`) -/
 def wcs (units : List Nat) : List Nat := units.takeWhile (· != 0)
 
+/-- `String::wlength()`: `wcslen(dataw())` -/
+def wlength (s : List UInt8) : Option Nat := (dataw s).map fun u => (wcs u).length
+
 /-- `cap()` after `init(m)` -/
 def capAfterInit (m : Nat) : Nat := if m < 16 then 16 else max (m + 1) 20
 
